@@ -9,8 +9,9 @@ Import ListNotations.
 Definition vlogi_crc (d : list byte) : N := crc32 d.
 Definition vlogz_crc (d : list byte) : N := 0%N.
 
-Definition vlogi_step := vs_step vlogi_crc.
-Definition vlogz_step := vs_step vlogz_crc.
+(* the run-time clean-up rule is the generated one *)
+Definition vlogi_step (cfg : vcfg) := vs_step vlogi_crc cfg VLOG_CLEANUP_CHECKS_READERS.
+Definition vlogz_step (cfg : vcfg) := vs_step vlogz_crc cfg VLOG_CLEANUP_CHECKS_READERS.
 Definition vlogi_resolve := vs_resolve vlogi_crc.
 Definition vlogz_resolve := vs_resolve vlogz_crc.
 Definition vlogi_append := vwriter_append vlogi_crc.
@@ -18,5 +19,5 @@ Definition vlogi_read := vlog_read vlogi_crc.
 Definition vlogi_entry := ventry_bytes vlogi_crc.
 Definition vlogi_vs_append := vs_append vlogi_crc.
 Definition vlogi_vs_get := vs_get vlogi_crc.
-Definition vlogi_run := vs_run vlogi_crc.
-Definition vlogz_run := vs_run vlogz_crc.
+Definition vlogi_run (cfg : vcfg) := vs_run vlogi_crc cfg VLOG_CLEANUP_CHECKS_READERS.
+Definition vlogz_run (cfg : vcfg) := vs_run vlogz_crc cfg VLOG_CLEANUP_CHECKS_READERS.
